@@ -21,6 +21,8 @@ var c11FaultExprs = []string{
 	"\"x\"()", "[1]()", "null()", "(1).upper()", "fo.nosuch()",
 	"printf(\"%q\", 1)", "printf(\"%5\", 1)", "printf(\"%s %s\", 1)", "printf(1)",
 	"(\"a\" ~ \"[z-a]\")", "(\"a\" !~ \"(?<\")", "$0", "\"a\".split()", "json()",
+	// arguments a method must refuse
+	"fo.pluck(true)", "fo.pluck(null)", "fo.pluck([1])", "fo.pluck(uqnever)", "garr.push(1, 2)", "garr.pop(1)", "\"a\".split(1)",
 	// a container compared with itself; a malformed regex at a site that has already matched with a good one
 	"(garr == garr)", "(fo >= fo)", "(garr[1] != garr[1])", "(tre(\"b\") + tre(\"(\"))", "(tre(\"a\") && tre(\"a\") && tre(\"[\"))",
 }
@@ -29,6 +31,7 @@ var c11FaultExprs = []string{
 var c11Shapes = []string{
 	"fx = E", "print E", "print 1, E", "print E, 2", "printf(\"%v\", E)", "ga = [1, E]", "go = {k: E}", "garr[E]", "tf(E)", "tf(1, E)",
 	"fx = (E)(1)", "fx = -E", "fx = !E", "fx = 1 + E", "fx = E + 1", "fx = true && E", "fx = false || E", "fx += E", "fo.k = E", "fo[E] = 1",
+	"fx = uqnever < E", "fx = uqnever == E", "fx = uqnever != E", "fx = uqnever >= E", "fx = E > uqnever", "fx = null < E", "fx = uqnever || E", "fx = (uqnever == 1) || E",
 	"fx = E is number", "fx = match (E) { 1 => 2 }", "fx = match (1) { 1 => E }", "fx = E.length()", "fx = [E][0]", "fx = E ~ \"a\"", "fx = (E < 1)",
 }
 
